@@ -139,6 +139,28 @@ fn check_type_identities(t: &MType) -> Result<(), Violation> {
     if built != c {
         return Err(v("ctype-constructors", class, format!("{}: wirefilter_create_*_type gives {:?}, From<Type> gives {:?}", t.short(), built, c)));
     }
+    // a type that differs in exactly one layer (or in the primitive) must compare unequal and encode differently
+    {
+        let (layers, prim) = layers_of(t);
+        let mut bits = 0u32;
+        for (i, m) in layers.iter().enumerate() {
+            if *m {
+                bits |= 1 << i;
+            }
+        }
+        let n = layers.len();
+        let pidx = match prim {
+            MType::Bytes => 0,
+            MType::Int => 1,
+            MType::Ip => 2,
+            _ => 3,
+        };
+        let other = if n == 0 { build_mtype(0, 0, (pidx + 1) % 4) } else { build_mtype(bits ^ (1 << (n - 1)), n, pidx) };
+        let oty = other.to_type();
+        if oty == ty || CompoundType::from(oty) == ct || CType::from(oty) == c {
+            return Err(v("distinct-types-compare-equal", class, format!("{} and {} compare equal in one of the encodings", t.short(), other.short())));
+        }
+    }
     // JSON form
     let want = type_json_text(t);
     let got = serde_json::to_string(&ty).map_err(|e| v("type-json-ser", class.clone(), e.to_string()))?;
